@@ -357,6 +357,10 @@ pub fn run(p: &Params, which: Which) -> Outcome {
         let mut tpl = Templates::default();
         no_wire_form(ctx, &mut rng, which);
         for i in 0..per {
+            if ctx.saturated() {
+                ctx.count("stopped_early_after_20000_violations");
+                break;
+            }
             let n = nums[((i as usize) * nw + w) % nn];
             let frame = if rng.chance(2, 5) {
                 match gen::lib_frame(n, &mut rng) {
